@@ -104,6 +104,18 @@ def analyse(index, packages=("a816", "script")):
                                 if isinstance(t, ast.Name):
                                     local_names.add(t.id)
             local_names -= declared_global
+            # locals that are merely another NAME for a module-level object (`attributes = MAP_DEFAULTS`, `cache = _CACHE[key]`): writing through them
+            # writes the module-level object
+            aliases = {}
+            for n in ast.walk(fn):
+                if isinstance(n, (ast.Assign, ast.AnnAssign)) and n.value is not None:
+                    tgts = n.targets if isinstance(n, ast.Assign) else [n.target]
+                    v = n.value
+                    if len(tgts) == 1 and isinstance(tgts[0], ast.Name) and isinstance(v, (ast.Name, ast.Attribute, ast.Subscript)):
+                        kind_, base = base_name(v) if not isinstance(v, ast.Name) else ("name", v.id)
+                        if kind_ == "name" and base not in local_names and base not in ("self", "cls") and (base in declared_global or base in module_names) \
+                                and base not in mi.functions and base not in mi.classes and base not in mi.imports:
+                            aliases[tgts[0].id] = ast.unparse(v)
             fname = f"{cls + '.' if cls else ''}{fn.name}"
             # decorators that keep state across calls
             for d in fn.decorator_list:
@@ -141,6 +153,8 @@ def analyse(index, packages=("a816", "script")):
                     if nm in declared_global:
                         return "module", "declared global"
                     if nm in local_names:
+                        if nm in aliases and nm not in params:
+                            return "module", f"local {nm} is another name for the module-level object {aliases[nm]}"
                         return ("parameter" if nm in params else "local"), ""
                     if nm in module_names:
                         return "module", f"module-level name {nm}"
@@ -181,6 +195,8 @@ def analyse(index, packages=("a816", "script")):
                         nm = recv.id
                         if nm in declared_global or (nm not in local_names and nm in module_names):
                             reg, note = "module", f"mutating call on module-level name {nm}"
+                        elif nm in local_names and nm in aliases and nm not in params:
+                            reg, note = "module", f"mutating call through local {nm}, another name for the module-level object {aliases[nm]}"
                         elif nm in local_names:
                             reg, note = ("parameter" if nm in params else "local"), ""
                     sites.append(Site(mi.name, fname, n.lineno, f"call .{n.func.attr}()", ast.unparse(recv), reg, note))
